@@ -22,6 +22,7 @@ class Harness:
         self.file = file
         self.module = module
         self.expect = expect      # pass | fail (canary: must fail)
+        self.fn_name = name
 
 
 def load_harnesses():
@@ -40,8 +41,12 @@ def load_harnesses():
                 kv = {}
                 for part in re.findall(r'(\w+)=("[^"]*"|\S+)', m.group(1)):
                     kv[part[0]] = part[1].strip('"')
-                hs.append(Harness(kv["name"], kv.get("props", "").split(","), kv.get("tier", "quick"), kv.get("kind", "bounded"),
-                                  kv.get("bound", ""), kv.get("group", "default"), fn, module, kv.get("expect", "pass")))
+                for g in kv.get("group", "default").split(","):
+                    # a harness listed in several groups is run once per group; outside the default group it is reported as name@group
+                    h = Harness(kv["name"] if g == "default" else "%s@%s" % (kv["name"], g), kv.get("props_" + g, kv.get("props", "")).split(","), kv.get("tier", "quick"),
+                                kv.get("kind", "bounded"), kv.get("bound", "") + ("" if g == "default" else " [build: %s]" % GROUP_NOTE.get(g, g)), g, fn, module, kv.get("expect", "pass"))
+                    h.fn_name = kv["name"]
+                    hs.append(h)
     return hs
 
 
@@ -89,9 +94,12 @@ def scratch_repo(repo=REPO):
     return _scratch_repo
 
 
+GROUP_NOTE = {"nodebug": "debug assertions compiled out (CARGO_PROFILE_DEV_DEBUG_ASSERTIONS=false): the release half of C17", "leak": "CBMC --memory-leak-check"}
+GROUP_ENV = {"nodebug": {"CARGO_PROFILE_DEV_DEBUG_ASSERTIONS": "false"}}
 GROUP_FLAGS = {
     "default": [],
     "leak": ["--cbmc-args", "--memory-leak-check"],
+    "nodebug": [],
 }
 
 
@@ -115,7 +123,10 @@ def run_kani(harnesses, jobs=16, timeout_s=2400, playback=False, harness_timeout
         cmd += GROUP_FLAGS[g]
         t0 = now()
         import signal
-        proc = subprocess.Popen(cmd, cwd=dst, env=env_offline(), stdout=subprocess.PIPE, stderr=subprocess.STDOUT, text=True, start_new_session=True)
+        genv = dict(env_offline(), **GROUP_ENV.get(g, {}))
+        if g in GROUP_ENV:
+            genv["CARGO_TARGET_DIR"] = os.path.join(dst, "target_" + g)
+        proc = subprocess.Popen(cmd, cwd=dst, env=genv, stdout=subprocess.PIPE, stderr=subprocess.STDOUT, text=True, start_new_session=True)
         try:
             out, _ = proc.communicate(timeout=timeout_s)
         except subprocess.TimeoutExpired:
@@ -144,8 +155,8 @@ def full_name(h):
     # module path of the file the harness is included into + the harness module + fn
     mod = h.module[len("src/"):-len(".rs")].replace("/", "::")
     if mod == "lib":
-        return "%s::%s" % (h.file[:-3].replace("-", "_") + "_k", h.name)
-    return "%s::%s::%s" % (mod, "vk_" + h.file[:-3], h.name)
+        return "%s::%s" % (h.file[:-3].replace("-", "_") + "_k", h.fn_name)
+    return "%s::%s::%s" % (mod, "vk_" + h.file[:-3], h.fn_name)
 
 
 def parse_terse(out):
